@@ -154,9 +154,6 @@ theorem minOf_root_le (o r : Nat) (hole : Option Nat) (id h : Nat) : minOf o r h
   · split <;> omega
   · split <;> omega
 
-/-- weaker occupancy demand -/
-theorem NodeOcc.mono {o m m' : Nat} {sh : Shallow K V} (h : NodeOcc o m sh) (hm : m' ≤ m) : NodeOcc o m' sh :=
-  ⟨h.1, Nat.le_trans hm h.2.1, h.2.2⟩
 
 /-! ### composition of stretches -/
 
